@@ -135,3 +135,70 @@ def is_err_of(e, variant_suffix=None):
 
 def is_ok(e):
     return e[0] == "agg" and e[1].endswith("Result::Ok")
+
+
+def truth_table(body, eb=None, max_atoms=6):
+    """D-bool: for a loop-free body, enumerate the outcomes of its boolean switch conditions and
+    follow the CFG: returns (atoms, {assignment tuple: reached-return-definition key}).
+    atoms are the distinct comparison expressions (canonical strings) switched on; the
+    return-definition key is the show()n expression assigned to _0 on that path."""
+    from .expr import ExprBuilder as _EB, show as _show
+    eb = eb or _EB(body)
+    atoms = []
+    sw = {}
+    for sb, t, arms in body.switch_edges():
+        if t.get("discr_ty") != "bool":
+            continue
+        d = eb.at(sb).op(t["discr"])
+        pos = True
+        while d[0] == "un" and d[1] == "Not":
+            d = d[2]
+            pos = not pos
+        key = _show(d)
+        if key not in atoms:
+            atoms.append(key)
+        sw[sb] = (key, pos, t)
+    if len(atoms) > max_atoms or body.natural_loops():
+        return None, None
+    ret_defs = {}
+    for bb, idx, item in body.defs().get(0, []):
+        if body.is_cleanup(bb):
+            continue
+        e = eb.at(bb, idx).call(item) if idx == "term" else eb.rvalue(item["rv"])
+        ret_defs[bb] = _show(e)
+    table = {}
+    n = len(atoms)
+    for mask in range(1 << n):
+        assign = tuple(bool(mask >> k & 1) for k in range(n))
+        env = dict(zip(atoms, assign))
+        bb = 0
+        last_ret = None
+        steps = 0
+        while steps < 500:
+            steps += 1
+            if bb in ret_defs:
+                last_ret = ret_defs[bb]
+            t = body.blocks[bb]["term"]
+            if t["k"] == "return":
+                break
+            if bb in sw:
+                key, pos, tt = sw[bb]
+                val = env[key] if pos else not env[key]
+                nxt = None
+                for v, tg in tt["targets"]:
+                    if (v != 0) == val:
+                        nxt = tg
+                if nxt is None:
+                    nxt = tt["otherwise"] if val or all(v != 0 for v, _ in tt["targets"]) else tt["otherwise"]
+                    # switchInt(bool) -> [0: F, otherwise: T]
+                    if not val:
+                        zero = [tg for v, tg in tt["targets"] if v == 0]
+                        nxt = zero[0] if zero else tt["otherwise"]
+                bb = nxt
+                continue
+            ss = body.succs(bb)
+            if not ss:
+                break
+            bb = ss[0]
+        table[assign] = last_ret
+    return atoms, table
